@@ -27,10 +27,11 @@ type report struct {
 	Outcomes    int            `json:"distinct_outcomes"`
 	CapHit      bool           `json:"cap_hit"`
 	Failure     string         `json:"failure,omitempty"`
-	FailSched   []int          `json:"failing_schedule,omitempty"`
+	FailSched   []vsched.Switch `json:"failing_schedule,omitempty"`
 	Globals     []string       `json:"package_level_variables"`
 	Static      int            `json:"static_points"`
 	Determinism string         `json:"determinism"`
+	GlobalWrite string         `json:"package_level_write,omitempty"`
 }
 
 func main() {
@@ -51,10 +52,13 @@ func main() {
 		rep.Ops = append(rep.Ops, conc.Ops[o].Name)
 	}
 	var sh *conc.Shared
-	var base, gbase string
+	// the reference digest comes from a twin set of objects: observing the live ones before
+	// the threads start would warm up any lazily built state inside them
+	base := conc.SharedDigest(conc.NewShared())
+	var gbase string
 	bodies := func() []func() string {
 		sh = conc.NewShared()
-		base, gbase = conc.SharedDigest(sh), vsched.GlobalsDigest()
+		gbase = vsched.GlobalsDigest()
 		var b []func() string
 		for _, o := range ops {
 			o := o
@@ -74,9 +78,8 @@ func main() {
 		if d := conc.SharedDigest(sh); d != base {
 			return "a shared object changed during the execution"
 		}
-		if g := vsched.GlobalsDigest(); g != gbase {
-			return fmt.Sprintf("package-level state changed: %s -> %s", gbase, g)
-		}
+		// a changed package-level variable is not a violation by itself (it may be properly
+		// synchronised): it is reported as a fact; wrong results and races are the verdicts
 		return ""
 	}
 	// phase 0: each thread alone with the shared-state digest compared at EVERY scheduling point
@@ -88,8 +91,8 @@ func main() {
 			if d := conc.SharedDigest(sh); d != base {
 				return "shared object written by " + rep.Ops[k]
 			}
-			if g := vsched.GlobalsDigest(); g != gbase {
-				return "package-level variable written by " + rep.Ops[k]
+			if g := vsched.GlobalsDigest(); g != gbase && rep.GlobalWrite == "" {
+				rep.GlobalWrite = fmt.Sprintf("%s writes package-level state at its scheduling point %d", rep.Ops[k], step)
 			}
 			return ""
 		})
@@ -97,16 +100,17 @@ func main() {
 			fmt.Fprintln(os.Stderr, err)
 			os.Exit(2)
 		}
-		rep.PointsAlone = append(rep.PointsAlone, x.Steps)
+		rep.PointsAlone = append(rep.PointsAlone, x.Decisions)
 		if x.HookFailure != "" && rep.Failure == "" {
 			rep.Failure = x.HookFailure
 		}
 	}
 	// determinism: the same schedule replayed twice gives identical traces and observations
-	x1, _ := vsched.Run(bodies(), []int{1}, nil)
-	x2, _ := vsched.Run(bodies(), []int{1}, nil)
+	mid := []vsched.Switch{{At: rep.PointsAlone[0] / 2, Choice: 1}}
+	x1, e1 := vsched.Run(bodies(), mid, nil)
+	x2, e2 := vsched.Run(bodies(), mid, nil)
 	rep.Determinism = "ok"
-	if fmt.Sprint(x1.Choices, x1.Results, x1.Steps) != fmt.Sprint(x2.Choices, x2.Results, x2.Steps) {
+	if e1 != nil || e2 != nil || fmt.Sprint(x1.Segments, x1.Results, x1.Decisions) != fmt.Sprint(x2.Segments, x2.Results, x2.Decisions) {
 		rep.Determinism = "DIVERGED"
 		fmt.Fprintln(os.Stderr, "replay of one schedule diverged")
 		os.Exit(2)
